@@ -168,14 +168,19 @@ def roundtrip_contract(pkg, components, class_name, module_name, label):
         finally:
             I.in_clause = False
 
+    NV = "result is not None"
     clauses = [
-        Clause("roundtrip", eq, statement=f"{class_name}.from_dict(src).to_dict() == src for every schema-valid src "
+        Clause("roundtrip", eq, native=NV, statement=f"{class_name}.from_dict(src).to_dict() == src for every schema-valid src "
                                           f"(keys are the document's wire names; undeclared keys preserved)",
                props=["C02"]),
-        Clause("plain-json", plain, statement="the encoded form contains only JSON data (no UNSET, no rich objects)",
+        Clause("plain-json", plain, native=NV, statement="the encoded form contains only JSON data (no UNSET, no rich objects)",
                props=["C02"]),
-        Clause("input-not-mutated", unmutated, statement="from_dict leaves its argument unchanged", props=["C02"]),
+        Clause("input-not-mutated", unmutated, native=NV, statement="from_dict leaves its argument unchanged", props=["C02"]),
     ]
-    case = Case(label, make, clauses, raises=(), props=["C02"])
+    version = label.split("[")[1].rstrip("]") if "[" in label else "3.1.0"
+    from pyvc import fragnative
+    case = Case(label, make, clauses, raises=(), props=["C02"],
+                pool=lambda: fragnative.roundtrip_pool(version, class_name),
+                native_target="pyvc.fragnative:roundtrip_violation")
     c = FnContract(f"{pkg.name}.models.{module_name}:{class_name}.from_dict", [case])
     return c
